@@ -1,6 +1,8 @@
 package main
 
 import (
+	"sort"
+
 	"github.com/idena-network/idena-go/blockchain/types"
 
 	"verifharness/internal/hx"
@@ -64,8 +66,13 @@ func c14gen(c *hx.Ctx, i int) (*c14case, func(r *c14run, k int) *c14op) {
 			if q := r.last.Exec[a]; len(q) > 0 {
 				base = q[len(q)-1].AccountNonce
 			}
+			var held []int // labels, sorted: the pending map's order must not leak into the generated case
 			for _, tx := range append(append([]*types.Transaction{}, r.last.Exec[a]...), r.last.Pend[a]...) {
-				if m, ok := r.metaByID[r.ids[tx.Hash()]]; ok {
+				held = append(held, r.ids[tx.Hash()])
+			}
+			sort.Ints(held)
+			for _, id := range held {
+				if m, ok := r.metaByID[id]; ok {
 					mine = append(mine, m)
 				}
 			}
@@ -127,7 +134,7 @@ func c14gen(c *hx.Ctx, i int) (*c14case, func(r *c14run, k int) *c14op) {
 		if cs.Net > 0 && t.Fee > 0 {
 			// minimal fee = gas * 0.01 DNA / network size; MaxFee below, just above, or well above it
 			gas := int64(t.Pl+120) * 10
-			t.Fee = (gas*10/int64(cs.Net) + 1) * []int64{80, 105, 105, 150, 500}[rng.Intn(5)] / 100
+			t.Fee = (gas*10/int64(cs.Net) + 1) * []int64{80, 102, 102, 150, 500}[rng.Intn(5)] / 100
 		}
 		return t
 	}
